@@ -701,6 +701,10 @@ func (p *PX) lenTerm(a *Term, t types.Type) *Term {
 		k := a.Args[1]
 		return &Term{K: TBin, Op: token.ADD, A: inner, B: &Term{K: TConst, C: k.C, T: t, key: k.key}, T: t, key: "(" + inner.key + " + " + k.key + ")"}
 	}
+	// len(v.MapKeys()) is v.Len()
+	if a.K == TPure && a.Name == "(reflect.Value).MapKeys" && len(a.Args) == 1 {
+		return &Term{K: TPure, Name: "(reflect.Value).Len", Args: a.Args, T: t, key: "pure:(reflect.Value).Len(" + a.Args[0].key + ")"}
+	}
 	return &Term{K: TPure, Name: "len", Args: []*Term{a}, T: t, key: "len(" + a.key + ")"}
 }
 
